@@ -896,6 +896,25 @@ pub fn run_thr(case: &Case, dir: PathBuf) -> Outcome {
             sh.stats.lock().unwrap().inc("handle_identity_checks");
         }
     }
+    // C13: a journal I/O error that no client call reported hit background work (a worker's
+    // journal rotation): it must not be swallowed - the database has to end up poisoned
+    if let (Some(m), Fault::Io { kind: IoKind::Eio | IoKind::Enospc, .. }) = (&mon, &case.fault) {
+        let fired = m.lock().unwrap().io.fired_at_call.is_some();
+        if fired && sh.failed.lock().unwrap().is_empty() && !sh.failed() {
+            let mut spins = 0u32;
+            sched::wait_until("settle_after_background_fault", || {
+                spins += 1;
+                spins > 400 || fjall::verif::is_poisoned(&sh.db)
+            });
+            sh.stats.lock().unwrap().inc("probe_fault_hit_background_work");
+            if !fjall::verif::is_poisoned(&sh.db) {
+                sh.fail(
+                    "journal-failure-swallowed",
+                    format!("the injected {fault_desc} was returned to fjall (no client call reported an error, so it hit background work) but the database is not poisoned: later writes are acknowledged"),
+                );
+            }
+        }
+    }
     let poisoned_after_run = fjall::verif::is_poisoned(&sh.db);
     // rest of the main program, then the final content
     for op in case.program.iter().skip(split + 1) {
